@@ -60,9 +60,39 @@ Theorem C13_upd_other :
 Proof. exact upd_nth_other. Qed.
 
 
+(* ---- histories ---- *)
+From AV.Model Require Import Interp.
+From AV.Spec Require Import WorldSpec.
+From AV.Proofs Require Import WorldProofs.
+(** WHOLE HISTORIES: element handles are steps of the history fragment of AV.Props.C01.  Reading element i through any view kind gives the list's i-th value ([WorldSpec.sp_look], case ORead; out of range: None); writing a new value through a handle replaces exactly element i, hands back the old value and changes nothing else ([WorldSpec.sp_write], out of range: PIndex, nothing changes); swapping through two handles of different vectors exchanges exactly those two values ([WorldSpec.sp_swap]).  The byte-level machine does this at any point of any history, and every other vector's list stays what it was because the specification's vectors are separate lists ([C13_write_in_histories], [C13_swap_in_histories], [C13_read_in_histories]). *)
+Theorem C13_read_in_histories :
+  forall (c : cfg) (w : world) (st : astate) (o : op) (r : sres),
+         cfg_wf c ->
+         WRep c w st ->
+         ufuse (wuw w) = None -> sp_look c st (unext (wuw w)) o = Some r -> res_matches c w (exec c o w) r.
+Proof. exact exec_look. Qed.
+
+Theorem C13_write_in_histories :
+  forall (c : cfg) (w : world) (st : astate) (hk : N) (vid : nat) (idx : N) (r : sres),
+         WRep c w st ->
+         ufuse (wuw w) = None ->
+         sp_write c st (unext (wuw w)) vid idx = Some r -> res_matches c w (exec c (OWrite hk vid idx) w) r.
+Proof. exact exec_write. Qed.
+
+Theorem C13_swap_in_histories :
+  forall (c : cfg) (w : world) (st : astate) (v1 : nat) (i : N) (v2 : nat) (j : N) (r : sres),
+         WRep c w st ->
+         ufuse (wuw w) = None ->
+         sp_swap c st (unext (wuw w)) v1 i v2 j = Some r -> res_matches c w (exec c (OSwap 0 v1 i v2 j) w) r.
+Proof. exact exec_swap. Qed.
+
+(* ---- end histories ---- *)
 Print Assumptions C13_get.
 Print Assumptions C13_read.
 Print Assumptions C13_write_frame.
 Print Assumptions C13_write_then_read.
 Print Assumptions C13_upd_same.
 Print Assumptions C13_upd_other.
+Print Assumptions C13_read_in_histories.
+Print Assumptions C13_write_in_histories.
+Print Assumptions C13_swap_in_histories.
